@@ -357,7 +357,18 @@ afterPublish:
 				}
 			}
 			reach := e.reachable(st, as)
-			if fc != nil && len(fc.Modifies) == 1 && fc.Modifies[0] == "args" {
+			hasArgs := false
+			var restMod []string
+			if fc != nil {
+				for _, m := range fc.Modifies {
+					if m == "args" {
+						hasArgs = true
+					} else {
+						restMod = append(restMod, m)
+					}
+				}
+			}
+			if hasArgs {
 				// "modifies args": the callee writes only the structures its pointer arguments point to. Heap
 				// structures handed by reference get fresh field values at that reference; caller locals reachable
 				// from the arguments are forgotten below; nothing else changes.
@@ -380,6 +391,10 @@ afterPublish:
 				}
 				e.havocSet(st, reach)
 				e.publishExposed(st)
+				if len(restMod) > 0 {
+					// "modifies args maps": besides the structures the arguments point to, the listed heap classes
+					e.havocHeapOnly(st, restMod)
+				}
 			} else if fc != nil && len(fc.Modifies) > 0 {
 				e.havocHeapOnly(st, fc.Modifies)
 			} else {
